@@ -364,10 +364,10 @@ func collectTemplates(c *core.Ctx) ([]tmplInfo, map[string][]types.Type) {
 		for _, b := range fn.Blocks {
 			for _, in := range b.Instrs {
 				call, ok := in.(*ssa.Call)
-				if !ok || call.Call.StaticCallee() == nil {
+				if !ok || core.Callee(&call.Call) == nil {
 					continue
 				}
-				switch call.Call.StaticCallee().String() {
+				switch core.Callee(&call.Call).String() {
 				case "text/template.Must":
 					if texts, ok := templateTexts(call.Call.Args[0]); ok {
 						infos = append(infos, tmplInfo{pkg: core.FnPkgPath(fn), fn: fn, pos: c.P.Pos(call.Pos()), texts: texts})
